@@ -10,9 +10,13 @@ import (
 	"bytes"
 	"errors"
 	"fmt"
+	"github.com/verily-src/fhirpath-go/fhirpath"
+	"github.com/verily-src/fhirpath-go/fhirpath/evalopts"
+	"github.com/verily-src/fhirpath-go/fhirpath/system"
 	"reflect"
 	"strings"
 	"testing"
+	"time"
 
 	apb "github.com/google/fhir/go/proto/google/fhir/proto/annotations_go_proto"
 	dtpb "github.com/google/fhir/go/proto/google/fhir/proto/r4/core/datatypes_go_proto"
@@ -60,7 +64,7 @@ func c18GenOp(s Src, root *Node) c18Op {
 		}
 		op.Steps = c02IndexedSteps(n, mask)
 	}
-	op.Filter = pickOne(s, []string{"", "", "", "", "first", "last", "where-true", "where-false", "index0", "extension-url", "where-id", "tail"})
+	op.Filter = pickOne(s, []string{"", "", "", "", "first", "last", "where-true", "where-false", "index0", "extension-url", "where-id", "tail", "where-now", "where-not-now", "where-var"})
 	op.Value = pickOne(s, []string{"same", "same", "same", "sibling", "wrong", "nil", "clone-of-target", "namesake"})
 	op.Index = s.Range(-1, 4)
 	if op.Op == "insert" && s.Prob(75) {
@@ -249,6 +253,13 @@ func c18Path(typ string, op c18Op) string {
 		p += ".where(true)"
 	case "where-false":
 		p += ".where(false)"
+	// filters that depend on the evaluate options handed to the operation (OverrideTime, EnvVariable)
+	case "where-now":
+		p += ".where(now() = @2024-02-29T12:34:56.000Z)"
+	case "where-not-now":
+		p += ".where(now() != @2024-02-29T12:34:56.000Z)"
+	case "where-var":
+		p += ".where(%keep)"
 	case "index0":
 		p += "[0]"
 	case "extension-url":
@@ -288,8 +299,8 @@ func c18Targets(root *Node, op c18Op) (nodes []*Node, ok bool) {
 		if len(nodes) > 0 {
 			nodes = nodes[1:]
 		}
-	case "where-true":
-	case "where-false":
+	case "where-true", "where-now", "where-var":
+	case "where-false", "where-not-now":
 		nodes = nil
 	case "extension-url":
 		var out []*Node
@@ -815,10 +826,13 @@ func c18ApplyModel(model proto.Message, root *Node, op c18Op, targets []*Node, v
 
 func c18Exec(res fhir.Resource, path string, op c18Op, value fhir.Base) (err error, pan outcome) {
 	pan = guard(func() {
-		if op.Pkg {
+		// every operation gets the same evaluate options: a pinned clock and a variable
+		eopts := []fhirpath.EvaluateOption{evalopts.OverrideTime(time.Date(2024, 2, 29, 12, 34, 56, 0, time.UTC)), evalopts.EnvVariable("keep", system.Boolean(true))}
+		usesOpts := strings.HasPrefix(op.Filter, "where-now") || op.Filter == "where-not-now" || op.Filter == "where-var"
+		if op.Pkg && (op.Op == "add" || !usesOpts) {
 			switch op.Op {
 			case "add":
-				err = patch.Add(res, path, op.Name, value, &patch.Options{})
+				err = patch.Add(res, path, op.Name, value, &patch.Options{EvalOpts: eopts})
 			case "insert":
 				err = patch.Insert(res, path, value, op.Index)
 			case "delete":
@@ -837,15 +851,15 @@ func c18Exec(res fhir.Resource, path string, op c18Op, value fhir.Base) (err err
 		}
 		switch op.Op {
 		case "add":
-			err = e.Add(res, op.Name, value)
+			err = e.Add(res, op.Name, value, eopts...)
 		case "insert":
-			err = e.Insert(res, value, op.Index)
+			err = e.Insert(res, value, op.Index, eopts...)
 		case "delete":
-			err = e.Delete(res)
+			err = e.Delete(res, eopts...)
 		case "replace":
-			err = e.Replace(res, value)
+			err = e.Replace(res, value, eopts...)
 		case "move":
-			err = e.Move(res, op.Index, 0)
+			err = e.Move(res, op.Index, 0, eopts...)
 		}
 	})
 	return
@@ -1120,7 +1134,7 @@ var _ = reflect.TypeOf
 
 func TestC18(t *testing.T) {
 	r := newRec("C18",
-		"a history case is one resource (the fixture Patient or a generated resource of any R4 type) and 1..5 operations; each operation targets a node of the current JSON tree (un-indexed, fully or partly indexed) optionally filtered by first()/last()/tail()/where(true|false)/[0]/extension(url)/where(id.exists()), with op ∈ {add, insert, delete, replace, move}, an element name (valid, unknown, snake_case), an index in [-1,4] and a value that is a fresh element of the target's type, a sibling type (Code for an enum code, Integer for unsigned, …), a wrong type, a clone of the target or nil; method and package-level entry points.  Oracle after every step: error ⇒ resource and value bit-identical (deterministic serialisation, presence bits, proto.Equal); nil ⇒ the resource equals M-PATCH applied to a clone (independent protoreflect implementation on the target located by tree semantics; proto.Equal and google/fhir JSON), or, where the model does not predict the success, nothing changes when the path selects nothing; Move ⇒ ErrNotImplemented and unchanged.  Inverse-pair cases: add→delete, insert→delete, replace→replace-back restore the resource.  Populated-scalar cases: a densely populated resource of a drawn type and up to 12 add operations that each name an already populated scalar element: all must be refused.  Code cases: one add/replace of a plain Code on an enum-backed code element with a valid code or an invalid spelling of one (foreign, `_`/space/`.` for `-`, upper case, proto enum name, camelCase, padded): a code outside the value set must be refused (the tree would gain a text the element cannot hold).  non-trivial = an operation succeeded and changed the tree, or failed on a path selecting ≥ 1 node (histories); both steps succeeded (inverse pairs); distinct = FNV-64 of the case",
+		"a history case is one resource (the fixture Patient or a generated resource of any R4 type) and 1..5 operations; each operation targets a node of the current JSON tree (un-indexed, fully or partly indexed) optionally filtered by first()/last()/tail()/where(true|false)/[0]/extension(url)/where(id.exists()) or by a criterion that depends on the evaluate options every operation receives (where(now() = <the pinned instant>), where(%keep)), with op ∈ {add, insert, delete, replace, move}, an element name (valid, unknown, snake_case), an index in [-1,4] and a value that is a fresh element of the target's type, a sibling type (Code for an enum code, Integer for unsigned, …), a wrong type, a clone of the target or nil; method and package-level entry points.  Oracle after every step: error ⇒ resource and value bit-identical (deterministic serialisation, presence bits, proto.Equal); nil ⇒ the resource equals M-PATCH applied to a clone (independent protoreflect implementation on the target located by tree semantics; proto.Equal and google/fhir JSON), or, where the model does not predict the success, nothing changes when the path selects nothing; Move ⇒ ErrNotImplemented and unchanged.  Inverse-pair cases: add→delete, insert→delete, replace→replace-back restore the resource.  Populated-scalar cases: a densely populated resource of a drawn type and up to 12 add operations that each name an already populated scalar element: all must be refused.  Code cases: one add/replace of a plain Code on an enum-backed code element with a valid code or an invalid spelling of one (foreign, `_`/space/`.` for `-`, upper case, proto enum name, camelCase, padded): a code outside the value set must be refused (the tree would gain a text the element cannot hold).  non-trivial = an operation succeeded and changed the tree, or failed on a path selecting ≥ 1 node (histories); both steps succeeded (inverse pairs); distinct = FNV-64 of the case",
 		"the statement is conditional on success: which well-typed operations succeed is reported (success:* classes) but not asserted", "google/fhir jsonformat defines the JSON rendering")
 	runProperty(t, r,
 		Stage[c18Case]{Name: "histories", Gen: c18Gen, Run: c18Run, N: pick(2500, 25000)},
